@@ -47,10 +47,12 @@ pub struct Profile {
 	pub late_update: bool,
 	/// every node also feeds a real MonitorUpdatingPersister over a recording store (C19 c)
 	pub mup_shadow: bool,
+	/// the chain forks while the first channel's funding transaction is young (see `openfork`)
+	pub open_forks: bool,
 }
 impl Profile {
 	pub fn for_prop(prop: &str, thorough: bool) -> Profile {
-		let base = Profile { prop: prop.to_string(), steps: if thorough { 1500 } else { 600 }, nodes: 2, allow_async: false, allow_deferred: false, allow_disconnect: true, allow_fee_updates: true, allow_ticks: true, coop_close_at_end: true, multi_hop: false, mid_settles: true, allow_restart: false, allow_force_close: false, persist_manager_often: false, parallel: false, pay_workload: false, onchain: false, chain_equiv: false, reorgs: false, deadline_kind: None, late_update: false, deadline_sweep: false, mup_shadow: false };
+		let base = Profile { prop: prop.to_string(), steps: if thorough { 1500 } else { 600 }, nodes: 2, allow_async: false, allow_deferred: false, allow_disconnect: true, allow_fee_updates: true, allow_ticks: true, coop_close_at_end: true, multi_hop: false, mid_settles: true, allow_restart: false, allow_force_close: false, persist_manager_often: false, parallel: false, pay_workload: false, onchain: false, chain_equiv: false, reorgs: false, deadline_kind: None, late_update: false, deadline_sweep: false, mup_shadow: false, open_forks: false };
 		match prop {
 			"C01" => base,
 			"C05" => Profile { allow_async: true, allow_restart: true, allow_force_close: true, ..base },
@@ -292,6 +294,10 @@ fn drive(sim: &mut Sim, prof: &Profile, rng: &mut Rng, rep: &mut Report, ctype: 
 	let mut async_on = vec![false; n];
 	// --- open channels: a line 0-1-2-... ---
 	let edges: Vec<usize> = (0..n - 1).flat_map(|i| if prof.parallel { vec![i, i] } else { vec![i] }).collect();
+	if prof.open_forks {
+		sim.w.open_forks = true;
+		sim.w.chain_equiv = prof.chain_equiv;
+	}
 	for i in edges {
 		let mut value = *rng.pick(&[20_000u64, 50_000, 100_000, 400_000, 2_000_000]) + rng.below(10_000);
 		let mut push = if rng.chance(1, 3) { 0 } else { rng.below(value * 1000 / 2) };
@@ -315,7 +321,15 @@ fn drive(sim: &mut Sim, prof: &Profile, rng: &mut Rng, rep: &mut Report, ctype: 
 		let r = sim.w.open_channel(i, i + 1, value, push, None, chaos);
 		sim.dispatch(rep);
 		match r {
-			Ok(_) => {},
+			Ok(idx) => {
+				if sim.w.open_paused.take().is_some() {
+					crate::openfork::phase(sim, rng, rep, idx)?;
+					sim.dispatch(rep);
+					if !sim.raised.is_empty() {
+						return Ok(());
+					}
+				}
+			},
 			Err(e) => {
 				// a failed open of an honest channel is either a config the library legitimately refuses or a bug;
 				// refuse-at-open is reported through API results, so look for an error message instead
@@ -397,6 +411,10 @@ fn drive(sim: &mut Sim, prof: &Profile, rng: &mut Rng, rep: &mut Report, ctype: 
 				let quiet = direct && sim.w.queue_len(src, peer) == 0 && sim.w.queue_len(peer, src) == 0 && sim.w.is_connected(src, peer) && sim.w.chans[first].model.as_ref().map(|m| !m.has_pending_updates()).unwrap_or(false) && sim.w.nodes[src].persister.pending().is_empty() && sim.w.nodes[peer].persister.pending().is_empty() && sim.w.nodes[src].mon.pending_operation_count() == 0 && sim.w.nodes[peer].mon.pending_operation_count() == 0
 					// nothing waiting in either side's holding cell (workload steering only: the verdict never reads this)
 					&& det.pending_inbound_htlcs.is_empty() && det.pending_outbound_htlcs.is_empty()
+					// nothing under way anywhere that the peer may be about to forward into this channel (with three nodes an
+					// HTLC from the far side can enter it in the opposite direction while the probe is in flight, which the
+					// sender cannot know about; the receiver then rightly counts it against the fee-spike buffer)
+					&& (n == 2 || ((0..n).all(|x| (0..n).all(|y| x == y || sim.w.queue_len(x, y) == 0)) && sim.w.chans.iter().all(|c| c.closed || c.model.as_ref().map(|m| !m.has_pending_updates()).unwrap_or(true)) && (0..n).all(|x| !sim.w.nodes[x].mgr.needs_pending_htlc_processing() && sim.w.nodes[x].persister.pending().is_empty())))
 					&& sim.w.nodes[peer].mgr.list_channels().iter().filter(|c| c.channel_id == cid).all(|c| c.pending_inbound_htlcs.is_empty() && c.pending_outbound_htlcs.is_empty());
 				// a focused probe needs a channel on which nothing at all is pending – also no event whose handling
 				// releases a held monitor update (and with it a queued fee update): hand out the events, look again
